@@ -63,6 +63,7 @@ type SpecDB struct {
 	Pures    map[string]*Block // key: pkgpath + "." + name, and bare name for stdlib ones
 	Lemmas   []*Block
 	Guarded  []*Block
+	Published []*Block
 	Globals  []*Block
 	All      []*Block
 	UsedKeys map[string]bool
@@ -75,9 +76,9 @@ func NewSpecDB() *SpecDB {
 
 var clauseKW = map[string]bool{"requires": true, "ensures": true, "modifies": true, "invariant": true,
 	"decreases": true, "increases": true, "callspec": true, "ghostvar": true, "check": true, "effects": true, "thread": true, "acquires": true, "releases": true,
-	"assumes": true, "opaque": true, "panics": true, "funcspec": true, "inline": true, "havoc": true, "trusted": true, "asserts": true, "unroll": true, "nilreceiver": true, "ghostinc": true, "allocbound": true, "lockinv": true}
+	"assumes": true, "opaque": true, "panics": true, "funcspec": true, "inline": true, "havoc": true, "trusted": true, "asserts": true, "unroll": true, "nilreceiver": true, "ghostinc": true, "allocbound": true, "lockinv": true, "bodycheck": true, "noreturn": true, "bodyensures": true}
 var blockKW = map[string]bool{"abstract": true, "pure": true, "func": true, "loop": true, "assume": true, "lemma": true,
-	"guarded": true, "ghost": true, "global": true}
+	"guarded": true, "ghost": true, "global": true, "published": true}
 
 var specLineRe = regexp.MustCompile(`^\s*//\s?@(.*)$`)
 
@@ -210,6 +211,8 @@ func (db *SpecDB) parseHeader(b *Block, h string) error {
 		// finished later (header may continue on following lines)
 	case "guarded":
 		db.Guarded = append(db.Guarded, b)
+	case "published":
+		db.Published = append(db.Published, b)
 	case "global":
 		db.Globals = append(db.Globals, b)
 	case "ghost":
@@ -340,7 +343,7 @@ func (db *SpecDB) Finish() error {
 		}
 		for _, c := range b.Clauses {
 			switch c.Kind {
-			case "requires", "ensures", "invariant", "decreases", "increases", "assumes", "panics", "asserts", "allocbound", "lockinv":
+			case "requires", "ensures", "invariant", "decreases", "increases", "assumes", "panics", "asserts", "allocbound", "lockinv", "bodyensures":
 				e, err := ParseExpr(c.Text)
 				if err != nil {
 					return fmt.Errorf("%s:%d: %v (in %q)", c.File, c.Line, err, c.Text)
